@@ -74,6 +74,11 @@ def run(ctx):
             iso = iso_of(t)
             q, canon = presign(method, path, extra, headers, iso, expires)
             add("place:" + place, method, path, q, headers, expect, iso)
+            if place in ("inside", "expired", "before-window"):
+                # a header the URL's holder can add at will (it is not among the signed headers) changes nothing: the window is that of X-Amz-Date
+                other = iso_of(now) if place != "inside" else iso_of(now - 86400 * 3)
+                add("place:" + place + "+unsigned-x-amz-date-header", method, path, q, headers + [("x-amz-date", other)], expect, iso)
+                add("place:" + place + "+unsigned-date-header", method, path, q, headers + [("date", "Tue, 27 Mar 2007 19:36:42 +0000")], expect, iso)
         # mutations on a URL well inside its window
         iso = iso_of(now - 100); expires = 3600
         q, canon = presign(method, path, extra, headers, iso, expires)
